@@ -25,7 +25,7 @@ def modelLine (line : String) : String :=
   | some c =>
     match validate c with
     | none => "ok\taccept"
-    | some e => s!"err {e}\t{e}"
+    | some e => s!"err\t{e}"
 
 def monitorLine (prop : String) (line : String) : String :=
   match line.splitOn "\t" with
